@@ -12,7 +12,20 @@ Route suffixes of the sub-command ops (`u.cli+k`, `d cli+kf`, ...): `k` = every 
 holds decoy signatures (DNA k=31, protein k=7, dayhoff k=7, each with hashes of its own) and the sub-command is
 given `-k 21 --dna` (without the selection the decoys would be merged in or make the command fail); `f` = the
 operands (for merge / intersect: all but the first, which fixes the template) are handed over through
-`--from-file <list>`."""
+`--from-file <list>`.
+
+Periphery (invisible to the model):
+* ROUTES: API operations alternate between operator and dunder / argument spellings under a per-case counter; the
+  per-signature sub-commands (flatten / downsample / filter / inflate) are, every third time, run as a BATCH: the
+  operand together with up to three other live sketches of the case, in rotating order, in ONE invocation; every output
+  is matched to its input by name and compared with the API result for that input (a sub-command that carries state from
+  one input to the next gives a wrong sketch for a later input even when the operand itself comes out right);
+  alternately the operand is picked out of the batch with `--md5 <md5>` / `--name <name>` (flatten, filter), and the batch
+  is also passed through `sig rename` and `sig cat`, which must leave every sketch as it is.
+* HISTORIES: every object stored under a handle keeps its observation until the end of the case: the operands of an
+  operation are re-verified after it, all stored objects every eighth operation.
+* VIEWS: `show` (mh_impl) asserts the agreement of all views of a sketch; a signature read back from a sub-command's
+  output must carry the md5 of its own content."""
 import atexit
 import contextlib
 import io
@@ -141,6 +154,161 @@ def cli_result(argv, out, expect_one=True):
     return res
 
 
+from mh_impl import NROUTE, route, new_case      # per-case pseudo-random route choices
+
+
+def content(mh):
+    hs = mh.hashes
+    return (mh.num, mh._max_hash, bool(mh.track_abundance), mh.ksize, mh.moltype, dict(hs))
+
+
+def md5_of(mh):
+    import hashlib
+    h = hashlib.md5()
+    h.update(str(mh.ksize if mh.is_dna else mh.ksize * 3).encode())
+    for k in mh.hashes:
+        h.update(str(k).encode())
+    return h.hexdigest()
+
+
+def load_named(out):
+    """signatures written by a sub-command -> list of (name, frozen MinHash); each must carry the md5 of its content"""
+    if not os.path.exists(out) or open(out).read().strip() in ("", "[]"):
+        return []
+    res = []
+    for ss in sourmash.load_file_as_signatures(out):
+        assert ss.md5sum() == md5_of(ss.minhash), "a written signature does not carry the md5 of its own content"
+        res.append((ss.name, ss.minhash))
+    with contextlib.suppress(OSError):
+        os.remove(out)
+    return res
+
+
+def batch_cli(argv, target, api, T, selectors=False):
+    """run a per-signature sub-command over the operand AND other live sketches in one invocation.
+    api(mh) -> expected MinHash, or None when the sub-command writes nothing for that input; raising = not usable
+    as a co-operand.  Returns the list of MinHash written for the operand (as the single-input run would)."""
+    others = []
+    seen = {id(target)}
+    cands = [T[k] for k in sorted(T)]
+    if cands:
+        start = route(len(cands))
+        cands = cands[start:] + cands[:start]
+    for mh in cands:
+        if id(mh) in seen or len(others) >= 3:
+            continue
+        seen.add(id(mh))
+        try:
+            exp = api(mh)
+        except BaseException:       # noqa: BLE001
+            continue
+        others.append((mh, exp))
+    if not others:
+        return None
+    pos = route(len(others) + 1)
+    items = [(mh, exp, False) for mh, exp in others]
+    items.insert(pos, (target, None, True))
+    paths, names = [], []
+    one_file = route(2) == 0        # all inputs as ONE multi-signature file, or one file each
+    allsigs = []
+    for i, (mh, _, is_t) in enumerate(items):
+        _N[0] += 1
+        nm = f"{'t' if is_t else 'o'}{i}-{_N[0]}x"
+        sigs = [SourmashSignature(mh, name=nm)]
+        if DECOYS[0]:
+            d = decoys_for(mh)
+            sigs = d[:1] + sigs + d[1:]
+        names.append(nm)
+        if one_file:
+            allsigs += sigs
+            continue
+        pth = os.path.join(tmpdir(), f"b{_N[0]}.sig")
+        with open(pth, "w") as fp:
+            sourmash.save_signatures_to_json(sigs, fp)
+        paths.append(pth)
+    if one_file:
+        _N[0] += 1
+        pth = os.path.join(tmpdir(), f"b{_N[0]}.sig")
+        with open(pth, "w") as fp:
+            sourmash.save_signatures_to_json(allsigs, fp)
+        paths.append(pth)
+    tname = names[pos]
+    try:
+        sel = max(0, route(4) - 1) if selectors else 0      # 0: no selector (half of the time), 1: --md5, 2: --name
+        extra = []
+        if sel == 1:
+            extra = ["--md5", md5_of(target)]
+        elif sel == 2:
+            extra = ["--name", tname]
+        out = outpath()
+        run_cli(argv + extra + select_args() + paths + ["-o", out])
+        got = load_named(out)
+        by_name = {}
+        for nm, mh in got:
+            by_name.setdefault(nm, []).append(mh)
+        assert sum(len(v) for v in by_name.values()) == len(got)
+        for (mh, exp, is_t), nm in zip(items, names):
+            if is_t:
+                continue
+            if sel == 2 or (sel == 1 and md5_of(mh) != md5_of(target)):
+                assert nm not in by_name, f"batch: `{extra[0]}` selected another signature too"
+                continue
+            if exp is None:
+                assert nm not in by_name, "batch: a signature the sub-command skips was written"
+                continue
+            w = by_name.get(nm, [])
+            assert len(w) == 1, f"batch: {len(w)} outputs for one input"
+            assert content(w[0]) == content(exp), \
+                f"batch: input #{names.index(nm)} of {len(names)} came out as {show(w[0])[:90]} instead of {show(exp)[:90]}"
+        # identity sub-commands over the same files
+        if route(4) == 0:
+            out2 = outpath()
+            run_cli(["sig", "rename", "-q"] + select_args() + paths + ["renamed", "-o", out2])
+            got2 = load_named(out2)
+            assert [n for n, _ in got2] == ["renamed"] * len(items), "sig rename: names"
+            assert [content(m) for _, m in got2] == [content(mh) for mh, _, _ in items], "sig rename changed a sketch"
+            # `sig manifest`: one row per signature of the file, md5 / md5short / n_hashes of ITS content
+            import csv
+            mfp = outpath() + ".csv"
+            run_cli(["sig", "manifest", "-q", paths[0], "-o", mfp])
+            with open(mfp, newline="") as fp:
+                fp.readline()
+                rows = list(csv.DictReader(fp))
+            os.remove(mfp)
+            want = [(md5_of(mh), md5_of(mh)[:8], str(len(mh))) for mh, _, _ in (items if one_file else items[:1])]
+            rows = [r for r in rows if r["ksize"] == "21" and r["moltype"] == "DNA"]
+            assert [(r["md5"], r["md5short"], r["n_hashes"]) for r in rows] == want, "sig manifest: md5 / n_hashes of a row"
+            out3 = outpath()
+            run_cli(["sig", "cat", "-q"] + select_args() + paths + ["-o", out3])
+            got3 = load_named(out3)
+            assert [(n, content(m)) for n, m in got3] == [(n, content(mh)) for n, (mh, _, _) in zip(names, items)], \
+                "sig cat changed a signature"
+        return by_name.get(tname, [])
+    finally:
+        cleanup(paths)
+
+
+class History:
+    """every object ever stored under a handle, with the observation it had then"""
+
+    def __init__(self):
+        self.items = {}
+        self.n = 0
+
+    def note(self, mh):
+        if id(mh) not in self.items:
+            try:
+                self.items[id(mh)] = (mh, show(mh))
+            except BaseException:       # noqa: BLE001
+                pass
+
+    def verify(self, objs=None):
+        for mh, was in ([self.items[id(o)] for o in objs if id(o) in self.items] if objs is not None
+                        else list(self.items.values())):
+            now = show(mh)
+            assert now == was, f"a stored sketch changed: {was[:70]} -> {now[:70]}"
+
+
 def cleanup(paths):
     for p in paths:
         with contextlib.suppress(OSError):
@@ -156,8 +324,23 @@ def opt(T, w):
     return None if w == "-" else T[int(w)]
 
 
+def with_batch(single, argv, target, api, T, selectors=False):
+    """every third time: the batch route; its result must be what the single-input run gives"""
+    if route(3) != 0:
+        return single()
+    try:
+        rs = batch_cli(argv, target, api, T, selectors)
+    except CliFailed:
+        rs = single()           # raises the same way when the operand itself is refused
+        raise AssertionError("the sub-command fails on several inputs although it accepts each of them alone")
+    if rs is None:
+        return single()
+    return rs
+
+
 def main():
     T = {}
+    H = History()
     out = sys.stdout
     for line in sys.stdin:
         w = line.split()
@@ -166,17 +349,19 @@ def main():
             continue
         op = w[0]
         paths = []
-        route = ""
+        rsuf = ""
         if op == "d" and len(w) > 1 and "+" in w[1]:
-            w[1], route = w[1].split("+", 1)
+            w[1], rsuf = w[1].split("+", 1)
         elif "+" in op:
-            op, route = op.split("+", 1)
-        DECOYS[0] = "k" in route
-        from_file = "f" in route
+            op, rsuf = op.split("+", 1)
+        DECOYS[0] = "k" in rsuf
+        from_file = "f" in rsuf
         _SAME.clear()
         try:
             if op == "#":
                 T = {}
+                H = History()
+                new_case()
                 out.write("#\n")
                 continue
             a = w[1:]
@@ -202,34 +387,51 @@ def main():
                     raise KeyError
                 r, x, y = map(int, a)
                 A, B = T[x], T[y]
+                c = route(2)
                 if op == "u.add":
-                    res = A + B
+                    res = (A + B) if c else A.__add__(B)
                 elif op == "u.or":
-                    res = A | B
+                    res = (A | B) if c else A.__or__(B)
                 elif op == "u.iadd":
                     res = A.to_mutable()
-                    res += B
+                    if c:
+                        res += B
+                    else:
+                        r2 = res.__iadd__(B)
+                        assert r2 is res, "__iadd__ returned another object"
                 elif op == "u.merge":
                     res = A.to_mutable()
                     res.merge(B)
                 elif op == "u.addmany":
                     res = A.to_mutable()
-                    res.add_many(B)
+                    if c:
+                        res.add_many(B)
+                    else:
+                        res.add_many(B.hashes)          # the mapping view of the other sketch: its keys
                 elif op == "i.and":
-                    res = A & B
+                    res = (A & B) if c else A.__and__(B)
                 elif op == "i.meth":
                     res = A.intersection(B)
+                    assert A.num != B.num or content(res) == content(B.intersection(A)), "intersection is not symmetric"
                 elif op == "s.rm":
                     res = A.to_mutable()
-                    res.remove_many(B)
+                    if c:
+                        res.remove_many(B)
+                    else:
+                        res.remove_many(B.hashes)
                 elif op == "s.rmlist":
                     res = A.to_mutable()
-                    res.remove_many(list(B.hashes))
+                    hs_ = list(B.hashes)
+                    res.remove_many(hs_ if c else set(hs_))
                 elif op == "n.meth":
                     res = A.inflate(B)
                 else:   # n.cli: sig inflate <from> <other>
                     paths = [write_sig(A, "from"), write_sig(B, "other")]
-                    rs = cli_result(["sig", "inflate", "-q"] + select_args() + [paths[0], paths[1]], outpath())
+
+                    def single_inflate():
+                        return cli_result(["sig", "inflate", "-q"] + select_args() + [paths[0], paths[1]], outpath())
+                    rs = with_batch(single_inflate, ["sig", "inflate", "-q", paths[0]], B,
+                                    lambda m: m.inflate(A), T)
                     if len(rs) != 1:
                         raise CliFailed("SystemExit")
                     res = rs[0]
@@ -259,7 +461,11 @@ def main():
                     paths = [write_sig(T[x], "a")]
                     tail, more = positional(paths, from_file, False)
                     paths += more
-                    rs = cli_result(["sig", "flatten", "-q"] + select_args() + tail, outpath())
+
+                    def single_flatten():
+                        return cli_result(["sig", "flatten", "-q"] + select_args() + tail, outpath())
+                    rs = with_batch(single_flatten, ["sig", "flatten", "-q"], T[x], lambda m: m.flatten(), T,
+                                    selectors=True)
                     if len(rs) != 1:
                         raise CliFailed("SystemExit")
                     T[r] = rs[0]
@@ -277,7 +483,20 @@ def main():
                     flag = ["--scaled", str(v)] if kind == "cli" else ["--num", str(v)]
                     tail, more = positional(paths, from_file, False)
                     paths += more
-                    rs = cli_result(["sig", "downsample", "-q"] + flag + select_args() + tail, outpath())
+
+                    def single_down():
+                        return cli_result(["sig", "downsample", "-q"] + flag + select_args() + tail, outpath())
+
+                    def api_down(m):
+                        # only same-kind inputs (num <-> scaled conversion has conditions of its own)
+                        if kind == "cli":
+                            if not m.scaled:
+                                raise ValueError
+                            return m.downsample(scaled=v)
+                        if not m.num:
+                            raise ValueError
+                        return m.downsample(num=v)
+                    rs = with_batch(single_down, ["sig", "downsample", "-q"] + flag, T[x], api_down, T)
                     if len(rs) != 1:
                         raise CliFailed("SystemExit")
                     T[r] = rs[0]
@@ -292,7 +511,18 @@ def main():
                 argv = ["sig", "filter", "-q", "-m", str(mn)]
                 if mx != "-":
                     argv += ["-M", str(int(mx))]
-                rs = cli_result(argv + select_args() + [paths[0]], outpath())
+                mxv = None if mx == "-" else int(mx)
+
+                def single_filter():
+                    return cli_result(argv + select_args() + [paths[0]], outpath())
+
+                def api_filter(m):
+                    if not m.track_abundance:
+                        return None
+                    f = m.copy_and_clear()
+                    f.set_abundances({k_: v_ for k_, v_ in m.hashes.items() if v_ >= mn and (mxv is None or v_ <= mxv)})
+                    return f
+                rs = with_batch(single_filter, list(argv), T[x], api_filter, T, selectors=True)
                 if len(rs) == 0:
                     cleanup(paths)
                     out.write("ok skipped\n")
@@ -341,7 +571,12 @@ def main():
             else:
                 out.write("bad-op\n")
                 continue
-            res = show(T[int(a[1] if op == "d" else a[0])])
+            rkey = int(a[1] if op == "d" else a[0])
+            res = show(T[rkey])
+            H.note(T[rkey])
+            H.n += 1
+            # whatever was stored earlier must still read the same (operands now, everything every eighth operation)
+            H.verify(None if H.n % 8 == 0 else [T[int(x)] for x in a if x.isdigit() and int(x) in T])
         except KeyError:
             res = "bad-op"
         except CliFailed as e:
